@@ -120,7 +120,7 @@ func dcgHandle(c map[string]J) map[string]J {
 		}()
 		select {
 		case <-done:
-		case <-time.After(5 * time.Second):
+		case <-time.After(wd(5 * time.Second)):
 			return map[string]J{"status": "mismatch", "input": desc, "what": "phrase did not finish within 5s", "expected": want, "observed": "hang", "fatal": true}
 		}
 		switch e := sols.Err(); {
